@@ -32,7 +32,10 @@ property theorems.
     same overlap across a page roll-over followed by ack + GC.
 -/
 import LinVerif.Lemmas.C05Live
+import LinVerif.Lemmas.C05Meta
+import LinVerif.Lemmas.C05MetaBridge
 import LinVerif.Generated.C05
+import LinVerif.Generated.C05Meta
 
 namespace LinVerif.Props.C05
 open LinVerif LinVerif.Queue
@@ -762,6 +765,87 @@ example :
     have : n = 524288 := by omega
     subst this; decide
 
+/-! ## round 9: the writers of the meta page as threads (Model/C05QueueMeta.lean)
+
+Put (persistMetaOfMessage), SetAppendedSeq, SetAcknowledgedSeq and initSequence are instruction
+lists with their `lock` / `unlock` calls, regenerated from queue.go. Interleavings are at the
+granularity of ONE instruction of any number of callers; `crash` anywhere. -/
+
+section MetaWriters
+open LinVerif.QueueMeta
+
+/-- the regenerated programs decode to the ones the invariant was proved for: every store into
+the meta page and into the in-memory sequences, its value source, and the lock region it is in -/
+theorem meta_writers_tie : decodeProgs C05Meta.metaWriters = some currentProgs := by decide
+
+/-- THE STATEMENT: whatever the interleaving of the instructions of concurrent Put /
+SetAppendedSeq / SetAcknowledgedSeq callers and wherever the process crashes, the appended
+sequence in the meta page (what NewQueue will read) is at least every sequence a successful Put
+has handed out (and no later reset has discarded). Over the programs found in the source NOW. -/
+theorem meta_persisted_covers_returned (P : Progs) (hP : decodeProgs C05Meta.metaWriters = some P)
+    (a k : Int) (evs : List MEv) (σ : MSt) (h : mrun P (MSt.start a k) evs = some σ) :
+    ∀ s ∈ σ.rets, s ≤ σ.diskApp := by
+  rw [meta_writers_tie] at hP
+  cases hP
+  intro s hs
+  exact ((run_inv evs _ σ (minv_start a k) h).rets s hs).1
+
+/-- between critical sections the meta page and memory agree: close/reopen changes neither sequence -/
+theorem meta_quiescent_synced (a k : Int) (evs : List MEv) (σ : MSt)
+    (h : mrun currentProgs (MSt.start a k) evs = some σ) (hq : σ.holder = none) :
+    σ.diskApp = σ.memApp ∧ σ.diskAck = σ.memAck :=
+  (run_inv evs _ σ (minv_start a k) h).free hq
+
+/-- a crash at ANY point (inside a critical section included) keeps every returned sequence in range:
+after NewQueue the appended sequence is the persisted one, which covers them -/
+theorem meta_crash_keeps_returned (a k : Int) (evs : List MEv) (σ : MSt)
+    (h : mrun currentProgs (MSt.start a k) evs = some σ) :
+    (crash currentProgs σ).rets = σ.rets ∧ (crash currentProgs σ).memApp = σ.diskApp ∧
+      ∀ s ∈ σ.rets, s ≤ (crash currentProgs σ).memApp := by
+  have hi := run_inv evs _ σ (minv_start a k) h
+  refine ⟨by simp [crash, currentProgs, execInstr], by simp [crash, currentProgs, execInstr, Src.eval], ?_⟩
+  intro s hs
+  have := (hi.rets s hs).1
+  simpa [crash, currentProgs, execInstr, Src.eval] using this
+
+/-- mutual exclusion as the code has it: a caller that does not hold rwMutex has executed nothing -/
+theorem meta_lock_excludes (a k : Int) (evs : List MEv) (σ : MSt)
+    (h : mrun currentProgs (MSt.start a k) evs = some σ) (t : Nat) (ht : σ.holder ≠ some t) :
+    σ.ths t = .idle ∨ ∃ kd arg, σ.ths t = .run kd 0 0 arg :=
+  (run_inv evs _ σ (minv_start a k) h).others t ht
+
+/-- non-vacuity: three appends, a backward reset to 1 between them, an ack; callers started
+while another one is inside its critical section -/
+example :
+    (mrun currentProgs (MSt.start (-1) (-1))
+      ([.call 0 .put 0, .call 1 .put 0, .step 0, .step 0, .call 2 .reset 1, .step 0, .step 0, .step 0] ++
+       [.step 1, .step 1, .step 1, .step 1, .step 1] ++
+       [.step 2, .step 2, .step 2, .step 2, .step 2, .step 2, .step 2] ++
+       [.call 0 .put 0, .step 0, .step 0, .step 0, .step 0, .step 0, .call 3 .ack 2] ++
+       [.step 3, .step 3, .step 3, .step 3, .step 3, .step 3])).map
+      (fun σ => (σ.rets, σ.memApp, σ.memAck, σ.diskApp, σ.diskAck)) = some ([2, 1, 0], 2, 2, 2, 2) := by
+  decide
+
+/-- the thread programs refine the sequential queue model: one caller running Put / SetAppendedSeq /
+SetAcknowledgedSeq alone to its return leaves exactly the four sequence words (memory and meta page)
+that `put` / `setAppended` / `ack` of Model/Queue.lean leave, a Put hands out the sequence `put`
+answers, and `crash` reads back what `openQ` reads back -/
+theorem meta_threads_refine_sequential (st : St) :
+    (∀ m : Msg, m.len ≤ dataPageSize →
+      (mrun currentProgs (MSt.ofSt st) (alone .put 0 5)).map (fun σ => (σ.words, σ.rets, σ.holder)) =
+        some (wordsOf (put st m).1, [st.q.appended + 1], none) ∧ (put st m).2 = .ok (st.q.appended + 1)) ∧
+    (∀ s : Int,
+      (mrun currentProgs (MSt.ofSt st) (alone .reset s 7)).map (fun σ => (σ.words, σ.rets, σ.holder)) =
+        some (wordsOf (setAppended st s), [], none)) ∧
+    (∀ s : Int,
+      (mrun currentProgs (MSt.ofSt st)
+          (alone .ack s (if s > st.q.acked ∧ s ≤ st.q.appended then 6 else 3))).map
+          (fun σ => (σ.words, σ.rets, σ.holder)) = some (wordsOf (ack st s), [], none)) ∧
+    (st.mem.hasMeta = true → (crash currentProgs (MSt.ofSt st)).words = wordsOf (openQ st.mem)) :=
+  ⟨fun m hm => ⟨put_alone st m hm, (put_words st m hm).2⟩, reset_alone st, ack_alone st, crash_is_openQ st⟩
+
+end MetaWriters
+
 /-! ## the property does not hold for the three-step structure -/
 
 namespace Neg
@@ -821,6 +905,38 @@ theorem drained_rewind_witness :
     let good := gc (put (openQ st.mem) msgA).1
     (put (Mutant.openQDrained st.mem) msgA).2 = .ok 2 ∧ get bad 2 = .notFound ∧
       get good 2 = .ok msgA.bytes ∧ (openQ st.mem).q.dataPageIndex = 1 := by decide
+
+/-! ### SetAppendedSeq storing the meta page after its unlock (seeded as change c05-22) -/
+
+/-- reset to 10 releases the lock after the in-memory stores; a Put runs completely in the window
+(sequence 11, returned); the reset then stores the stale 10 over it: memory says 11, the meta page
+says 10, and after a crash / reopen the appended sequence is 10 — the returned 11 is out of range -/
+theorem unlocked_meta_store_witness :
+    (QueueMeta.mrun QueueMeta.splitResetProgs (QueueMeta.MSt.start 2 (-1))
+      ([.call 0 .reset 10, .step 0, .step 0, .step 0, .step 0] ++
+       [.call 1 .put 0, .step 1, .step 1, .step 1, .step 1, .step 1] ++
+       [.step 0, .step 0, .step 0])).map
+      (fun σ => (σ.rets, σ.memApp, σ.diskApp, (QueueMeta.crash QueueMeta.splitResetProgs σ).memApp)) =
+      some ([11], 11, 10, 10) := by decide
+
+/-- hence the statement is false for that program -/
+theorem meta_statement_fails_for_split :
+    ¬ (∀ (evs : List QueueMeta.MEv) (σ : QueueMeta.MSt),
+        QueueMeta.mrun QueueMeta.splitResetProgs (QueueMeta.MSt.start 2 (-1)) evs = some σ →
+        ∀ s ∈ σ.rets, s ≤ σ.diskApp) := by
+  intro h
+  have hw := unlocked_meta_store_witness
+  simp only [Option.map_eq_some_iff, Prod.mk.injEq] at hw
+  obtain ⟨σ, hr, h1, _, h3, _⟩ := hw
+  have := h _ σ hr 11 (by simp [h1])
+  omega
+
+/-- with the current programs the window does not exist: the Put's `lock` is not enabled while the
+reset is inside its critical section -/
+theorem current_has_no_window :
+    (QueueMeta.mrun QueueMeta.currentProgs (QueueMeta.MSt.start 2 (-1))
+      [.call 0 .reset 10, .step 0, .step 0, .step 0, .step 0, .call 1 .put 0, .step 1]).isNone = true := by
+  decide
 
 end Neg
 
